@@ -1,29 +1,6 @@
-SPECIFICATION TraceSpec
+SPECIFICATION TraceSpecChecked
 CONSTANTS
   Objects = {"e1", "e2"}
   Sharing = "perObject"
   Deltas = {2}
 INVARIANT Accepted
-INVARIANT InvShape
-INVARIANT InvStepTimes
-INVARIANT InvRecIsStep
-INVARIANT InvT0Record
-INVARIANT InvPolicyMono
-INVARIANT InvAllMono
-INVARIANT InvOnePerStep
-INVARIANT InvOnTSample
-INVARIANT InvOnTSampleEnd
-INVARIANT InvOnIteration
-INVARIANT InvOnInterval
-INVARIANT InvNoSampling
-INVARIANT InvFixedEnd
-INVARIANT InvGillEnd
-INVARIANT InvPosRange
-INVARIANT InvStatusCurrent
-PROPERTY StickyComplete
-PROPERTY IdleAfterDone
-PROPERTY OnlyIterationsAdvance
-PROPERTY ObserversReadOnly
-PROPERTY ManualRule
-PROPERTY Isolation
-PROPERTY CleanSlate
